@@ -1,4 +1,5 @@
 import IdModel.Jose.Jws
+import IdModel.Jose.Sign
 import Driver.Util
 import Driver.C11
 import Driver.C01
@@ -38,7 +39,42 @@ def triples : List String → Option (List (Option Hdr × Option Hdr × Bytes))
     | _, _, _, _ => none
   | _ => none
 
+/-- `sign` request: options `a:<0|1>;b:<~|t|f>;t:<~|i>;c:<~|i>;u:<~|i>;n:<~|i>;k:<~|i>;d:<0|1>;x:<0|1>;j:<0|1>`
+(text values are named by their index in the harness' pools: `t3` is the typ value number 3, …) -/
+def parseSigOpts (t : String) : Option (SigOpts × Bool) :=
+  let m := (t.splitOn ";").filterMap fun kv => match kv.splitOn ":" with | [k, v] => some (k, v) | _ => none
+  let get (k : String) : Option String := (m.find? (·.1 == k)).map (·.2)
+  let txt (k pre : String) : Option (Option String) := match get k with
+    | some "~" => some none
+    | some v => some (some (pre ++ v))
+    | none => none
+  let flag (k : String) : Option Bool := match get k with | some "1" => some true | some "0" => some false | _ => none
+  match flag "a", get "b", txt "t" "t", txt "c" "c", txt "u" "u", txt "n" "n", txt "k" "k", flag "d", flag "x", flag "j" with
+  | some a, some b, some t, some c, some u, some n, some k, some d, some x, some j =>
+    let b64 : Option (Option Bool) := if b == "~" then some none else if b == "t" then some (some true)
+      else if b == "f" then some (some false) else none
+    b64.map fun b64 => ({ attachJwk := a, b64 := b64, typ := t, cty := c, url := u, nonce := n, kid := k, detached := d,
+                          custom := if x then ["x-custom"] else [] }, j)
+  | _, _, _, _, _, _, _, _, _, _ => none
+
+def so (o : Option String) : String := o.getD "~"
+
+def sign (opts pl : String) : String :=
+  match parseSigOpts opts, unhex pl with
+  | some (o, jwt), some payload =>
+    let enc := if jwt then createJwt (fun _ => []) payload "EdDSA" "M" 1 o else createJws (fun _ => []) payload "EdDSA" "M" 1 o
+    match enc with
+    | none => "err"
+    | some e =>
+      let h := createHeader "EdDSA" "M" 1 o
+      let b64 := match h.b64 with | none => "~" | some true => "t" | some false => "f"
+      let crit := match h.crit with | none => "~" | some l => ",".intercalate l
+      let cust := if h.custom.isEmpty then "~" else ",".intercalate h.custom
+      s!"ok:alg={so h.alg};kid={so h.kid};typ={so h.typ};cty={so h.cty};url={so h.url};nonce={so h.nonce};jwk={match h.jwk with | none => "0" | some k => toString k};b64={b64};crit={crit};cust={cust};det={if e.processedPayload.isNone then 1 else 0}"
+  | _, _ => "bad-request"
+
 def handle : List String → String
+  | ["sign", opts, pl] => sign opts pl
   | "compact" :: pl :: h :: opts :: sg :: tab =>
     match unhex pl, Driver.C11.parseHdr h, unhex sg, parseSTable tab with
     | some pl, some (some h), some sg, some tab =>
